@@ -311,6 +311,9 @@ func c40TemporalCols(t *rapid.T, l string) []c40Col {
 			verify: c40TextCmp(func(v any) string { return c40DatetimeText(v.(time.Time), dp) })},
 		{label: fmt.Sprintf("TIMESTAMP(%d)", tp), class: "timestamp", typ: tsTyp, keyOK: true, styp: querypb.Type_TIMESTAMP,
 			gen: func(t *rapid.T, l string) any {
+				if rapid.IntRange(0, 39).Draw(t, l+".zero") == 0 {
+					return gmstypes.ZeroTime
+				}
 				if rapid.IntRange(0, 3).Draw(t, l+".edge") == 0 {
 					sec := rapid.SampledFrom([]int64{1, 2, 86399, 86400, 946684799, 946684800, 2147483646, 2147483647}).Draw(t, l+".seconds")
 					return time.Unix(sec, 0).UTC()
@@ -1162,7 +1165,7 @@ var c40Findings = []c40Finding{
 	{"C40-year-zero", func(c *c40Col, v any) bool { y, ok := v.(int16); return ok && c.class == "year" && y == 0 }},
 	{"C40-zero-date", func(c *c40Col, v any) bool {
 		x, ok := v.(time.Time)
-		return ok && (c.class == "date" || c.class == "datetime") && c40IsZeroTime(x)
+		return ok && (c.class == "date" || c.class == "datetime" || c.class == "timestamp") && c40IsZeroTime(x)
 	}},
 	{"C40-decimal-precision-equals-scale", func(c *c40Col, v any) bool { return c.class == "decimal_p_eq_s" }},
 	{"C40-json-key-over-255-bytes", func(c *c40Col, v any) bool {
@@ -1590,6 +1593,13 @@ func c40Pinned(t *testing.T) {
 	} else {
 		got, _, err = mysql.CellValue(b, 0, mysql.TypeDateTime2, 0, querypb.Type_DATETIME)
 		report("C40-zero-date", fmt.Sprintf("DATETIME 0000-00-00 00:00:00 is emitted as %x, which decodes to %q (err %v)", b, got.ToString(), err), err != nil || got.ToString() != "0000-00-00 00:00:00")
+	}
+	b, err = timestampSerializer{}.serialize(ctx, gmstypes.MustCreateDatetimeType(sqltypes.Timestamp, 0), gmstypes.ZeroTime, nil)
+	if err != nil {
+		report("C40-zero-date", fmt.Sprintf("TIMESTAMP 0000-00-00 00:00:00 cannot be serialized: %v", err), true)
+	} else {
+		got, _, err = mysql.CellValue(b, 0, mysql.TypeTimestamp2, 0, querypb.Type_TIMESTAMP)
+		report("C40-zero-date", fmt.Sprintf("TIMESTAMP 0000-00-00 00:00:00 is emitted as %x, which decodes to %q (err %v)", b, got.ToString(), err), err != nil || got.ToString() != "0000-00-00 00:00:00")
 	}
 	// DECIMAL(3,3) 0.123
 	d33, _ := gmstypes.CreateColumnDecimalType(3, 3)
